@@ -556,8 +556,10 @@ def run(ctx):
     else:
         ctx.violation("R4.3", "TextFrame.text.getter", "frame reader does not join every paragraph's text with LF (%s)" % jr, file=tg.file, line=tg.line)
     pp = tf.methods.get("paragraphs")
+    from sa.desugar import desugar as _ds4
+
     good = any(isinstance(n, (ast.ListComp, ast.GeneratorExp)) and not n.generators[0].ifs and dotted(n.generators[0].iter) == "self._txBody.p_lst"
-               for n in ast.walk(pp.node)) if pp else False
+               for n in ast.walk(_ds4(pp.node))) if pp else False   # (map / partial pipelines read as comprehensions)
     if good:
         ctx.ok("R4.3", "TextFrame.paragraphs", nontrivial=False)
     else:
